@@ -1,5 +1,46 @@
 import Spq.Drv.Util
-/- driver family stub (filled in by the owner of this family) -/
+import Spq.Module
+/-
+  driver family `md` (module-level FFT64 pipelines).  Every line starts with the configuration
+     md <op> nn fftFma ifftFma fromBnd50 toVar mulFma addmulFma vmpAvx <shape…> | fftT | ifftT | payload…
+  (flags 0/1; toVar 0 ref, 1 bnd50, 2 bnd63; tables and DFT-space values are decimal 64-bit patterns)
+     small                         | a | b                 ->  product ints
+     svp   rsz asz asl             | pol | a               ->  dft patterns | ints after idft
+     dft   rsz asz asl             | a                     ->  dft patterns
+     vmp   nrows ncols asz asl rsz | mat | a               ->  pmat patterns | apply_dft patterns | ints after idft
+-/
 namespace Spq.Drv
-def handleMd (_args : List String) : Option String := none
+open Spq
+
+def splitBars (xs : List String) : List (List String) :=
+  let rec go (cur : List String) (acc : List (List String)) : List String → List (List String)
+    | [] => (cur.reverse :: acc).reverse
+    | "|" :: t => go [] (cur.reverse :: acc) t
+    | h :: t => go (h :: cur) acc t
+  go [] [] xs
+
+def handleMd (args : List String) : Option String :=
+  match splitBars args with
+  | hd :: ft :: it :: payload =>
+    match hd with
+    | op :: nn :: f1 :: f2 :: f3 :: tv :: f4 :: f5 :: f6 :: shape =>
+      let b := fun (s : String) => s == "1"
+      let c : Module.Cfg := {
+        nn := parseNat nn, fftFma := b f1, ifftFma := b f2, fromBnd50 := b f3,
+        toVariant := (match tv with | "1" => .bnd50 | "2" => .bnd63 | _ => .ref),
+        mulFma := b f4, addmulFma := b f5, vmpAvx := b f6, fftT := nats ft, ifftT := nats it }
+      let sh := shape.map parseNat
+      match op, sh, payload with
+      | "small", _, [a, bb] => some (joinInts (Module.smallProduct c (ints a) (ints bb)))
+      | "svp", [rsz, asz, asl], [pol, a] =>
+        let d := Module.svpApply c rsz (Module.svpPrepare c (ints pol)) (ints a) asz asl
+        some (joinNats d ++ " | " ++ joinInts (Module.vecIdft c rsz d rsz))
+      | "dft", [rsz, asz, asl], [a] => some (joinNats (Module.vecDft c rsz (ints a) asz asl))
+      | "vmp", [nrows, ncols, asz, asl, rsz], [mat, a] =>
+        let pm := Module.vmpPrepare c (ints mat) nrows ncols
+        let r := Module.vmpApplyDft c rsz (ints a) asz asl pm nrows ncols
+        some (joinNats pm ++ " | " ++ joinNats r ++ " | " ++ joinInts (Module.vecIdft c rsz r rsz))
+      | _, _, _ => none
+    | _ => none
+  | _ => none
 end Spq.Drv
